@@ -16,6 +16,7 @@ import Mathlib.Algebra.BigOperators.Group.List.Basic
 import VerdeModel.Lemmas.Hull
 import Mathlib.Analysis.Convex.Hull
 import VerdeModel.Gen.Mask
+import VerdeModel.Gen.ProjectGrid
 namespace Verde.C16
 open Verde
 
@@ -291,5 +292,134 @@ example : IsConvComb [(0, 0), (4, 0), (0, 4), (4, 4)] (2, 2) :=
 example : inHull [(0, 0), (4, 0), (0, 4), (4, 4)] (2, 2) = true ∧ inHull [(0, 0), (4, 0), (0, 4), (4, 4)] (5, 5) = false := by
   decide +kernel
 example : inTriangle (1, 1) (0, 0) (4, 0) (0, 4) = true := by decide +kernel
+
+/-! ## `project_grid` as regenerated from the source (Gen/ProjectGrid.lean) -/
+
+/-- The projected coordinates of the valid cells as `project_grid` computes them. -/
+def projectedCells (valid : List (Rat × Rat × Rat)) (projection : Rat × Rat → Rat × Rat) : List Rat × List Rat :=
+  ((valid.map fun c => (projection (c.1, c.2.1)).1), (valid.map fun c => (projection (c.1, c.2.1)).2))
+
+theorem applyProjTbl_cells (valid : List (Rat × Rat × Rat)) (projection : Rat × Rat → Rat × Rat) :
+    applyProjTbl projection [valid.map (·.1), valid.map (·.2.1)] = [(projectedCells valid projection).1, (projectedCells valid projection).2] := by
+  simp [applyProjTbl, projectedCells, List.zip_map', Function.comp_def]
+
+theorem shapeToSpacing_some (r : Region) (shape : Nat × Nat) (h1 : 2 ≤ shape.1) (h2 : 2 ≤ shape.2) :
+    ∃ sn se, shapeToSpacing r shape false = some (sn, se) := by
+  unfold shapeToSpacing
+  have a : ¬ ((shape.1 : Int) - 1 = 0 ∨ (shape.2 : Int) - 1 = 0) := by omega
+  simp only [Bool.false_eq_true, if_false, a]
+  exact ⟨_, _, rfl⟩
+
+theorem checkRegion_ok_eq (l : List Rat) (r : Region) (h : checkRegion l = .ok r) : l = [r.w, r.e, r.s, r.n] := by
+  unfold checkRegion at h
+  split at h
+  · split_ifs at h
+    cases h; rfl
+  · cases h
+
+theorem checkRegion_err (l : List Rat) (er : Err) (h : checkRegion l = .error er) : er = Err.valueError := by
+  unfold checkRegion at h
+  split at h
+  · split_ifs at h <;> cases h <;> rfl
+  · cases h; rfl
+
+/-- The eagerly evaluated default spacing: either the region is not four numbers (both `shape_to_spacing` and `check_region` refuse it with a
+    `ValueError`), or — with at least two nodes per direction — it is the spacing of that region. -/
+theorem dflt_cases (reg : List Rat) (shape : Nat × Nat) (h1 : 2 ≤ shape.1) (h2 : 2 ≤ shape.2) :
+    (shapeToSpacingList reg shape = .error .valueError ∧ ∀ r, checkRegion reg ≠ .ok r) ∨
+    ∃ (w e s n sn se : Rat), reg = [w, e, s, n] ∧ shapeToSpacingList reg shape = .ok [sn, se] ∧ shapeToSpacing ⟨w, e, s, n⟩ shape false = some (sn, se) := by
+  unfold shapeToSpacingList
+  split
+  · rename_i w e s n
+    obtain ⟨sn, se, hsp⟩ := shapeToSpacing_some ⟨w, e, s, n⟩ shape h1 h2
+    exact Or.inr ⟨w, e, s, n, sn, se, rfl, by rw [hsp], hsp⟩
+  · rename_i hne
+    refine Or.inl ⟨rfl, fun r hr => ?_⟩
+    have := checkRegion_ok_eq _ _ hr
+    exact hne _ _ _ _ this
+
+/-- `projectGridLines` once the region is known. -/
+def projectGridLinesFrom (reg : List Rat) (shape : Nat × Nat) (spacing : Option (List Rat)) : Except Err (List Rat × List Rat) := do
+  let r ← checkRegion reg
+  let sp ← match spacing with
+    | some s => pure s
+    | none => match shapeToSpacing r shape false with
+      | some (sn, se) => pure [sn, se]
+      | none => Except.error Err.zeroDiv
+  gridLines reg ⟨none, some sp, .spacing, false⟩
+
+theorem projectGridLines_from (pe pn : List Rat) (shape : Nat × Nat) (region : Option (List Rat)) (spacing : Option (List Rat)) (r : Region)
+    (hg : getRegion pe pn = some r) :
+    projectGridLines pe pn shape region spacing = projectGridLinesFrom (region.getD [r.w, r.e, r.s, r.n]) shape spacing := by
+  unfold projectGridLines projectGridLinesFrom
+  cases region <;> simp only [hg, Option.getD_none, Option.getD_some, bind, Except.bind, pure, Except.pure] <;>
+    (split <;> [rfl; (cases spacing <;> [(simp only []; cases hh : shapeToSpacing _ shape false <;> [rfl; (rename_i p; cases p; rfl)]); rfl])])
+
+/-- **Bridge.**  The grid `project_grid` interpolates onto, as regenerated from the source, is the model's `projectGridLines` of the PROJECTED
+    coordinates of the valid cells (easting = the grid's second dimension) — region, shape and spacing taken from the keyword arguments when given,
+    else the bounding box of the projected cells, the input's shape and `shape_to_spacing` — for every grid with a valid cell and at least two
+    nodes per direction in the shape used; the interpolator is fitted on those projected coordinates, the result is masked with THEIR convex
+    hull, the anti-aliasing block mean (if any) uses the output spacing on the region of the projected data, and a nameless grid is `scalars`. -/
+theorem gen_project_grid_eq_model (grid_name : Option String) (grid_shape : Nat × Nat) (valid : List (Rat × Rat × Rat)) (projection : Rat × Rat → Rat × Rat)
+    (antialias : Bool) (kw_region : Option (List Rat)) (kw_shape : Option (Nat × Nat)) (kw_spacing : Option (List Rat))
+    (hv : valid ≠ []) (h1 : 2 ≤ (kw_shape.getD grid_shape).1) (h2 : 2 ≤ (kw_shape.getD grid_shape).2) :
+    (Gen.projectGrid grid_name grid_shape valid projection antialias kw_region kw_shape kw_spacing).map (·.lines)
+        = projectGridLines (projectedCells valid projection).1 (projectedCells valid projection).2 (kw_shape.getD grid_shape) kw_region kw_spacing ∧
+    ∀ plan, Gen.projectGrid grid_name grid_shape valid projection antialias kw_region kw_shape kw_spacing = .ok plan →
+      plan.name = grid_name.getD "scalars" ∧
+      plan.fitOn = [(projectedCells valid projection).1, (projectedCells valid projection).2] ∧ plan.hullOf = plan.fitOn ∧
+      (antialias = false → plan.reduce = none) ∧
+      (antialias = true → ∃ sp r, plan.reduce = some (sp, [r.w, r.e, r.s, r.n]) ∧
+          getRegion (projectedCells valid projection).1 (projectedCells valid projection).2 = some r ∧
+          gridLines (kw_region.getD [r.w, r.e, r.s, r.n]) ⟨none, some sp, .spacing, false⟩ = .ok plan.lines)  := by
+  have hpe : (projectedCells valid projection).1 ≠ [] := by simpa [projectedCells] using hv
+  have hpn : (projectedCells valid projection).2 ≠ [] := by simpa [projectedCells] using hv
+  obtain ⟨w, hw⟩ := listMin_isSome hpe
+  obtain ⟨e, he⟩ := listMax_isSome hpe
+  obtain ⟨s, hs⟩ := listMin_isSome hpn
+  obtain ⟨n, hn⟩ := listMax_isSome hpn
+  have hg : getRegion (projectedCells valid projection).1 (projectedCells valid projection).2 = some ⟨w, e, s, n⟩ := by
+    simp [getRegion, hw, he, hs, hn]
+  rw [projectGridLines_from _ _ _ _ _ ⟨w, e, s, n⟩ hg]
+  unfold Gen.projectGrid projectGridLinesFrom
+  simp only [applyProjTbl_cells, List.getD_cons_zero, List.getD_cons_succ, hg, bind, Except.bind, pure, Except.pure]
+  generalize hreg : kw_region.getD [w, e, s, n] = reg
+  rcases dflt_cases reg (kw_shape.getD grid_shape) h1 h2 with ⟨hl, hno⟩ | ⟨w', e', s', n', sn, se, hr, hl, hsp⟩
+  · simp only [hl]
+    cases hc : checkRegion reg with
+    | error er =>
+      have her : er = Err.valueError := checkRegion_err _ _ hc
+      subst her
+      exact ⟨rfl, fun plan h => by cases h⟩
+    | ok r => exact absurd hc (hno r)
+  · simp only [hl]
+    cases hc : checkRegion reg with
+    | error er => exact ⟨rfl, fun plan h => by cases h⟩
+    | ok r =>
+      have hreg' := checkRegion_ok_eq _ _ hc
+      have hr' : r = ⟨w', e', s', n'⟩ := by
+        rw [hr] at hreg'
+        simp only [List.cons.injEq, and_true] at hreg'
+        obtain ⟨a1, a2, a3, a4⟩ := hreg'
+        cases r; simp_all
+      subst hr'
+      simp only [hsp]
+      cases kw_spacing with
+      | none =>
+        simp only [Option.getD_none]
+        cases hlines : gridLines reg ⟨none, some [sn, se], .spacing, false⟩ with
+        | error er => exact ⟨rfl, fun plan h => by cases h⟩
+        | ok lines =>
+          refine ⟨rfl, fun plan h => ?_⟩
+          cases h
+          exact ⟨by cases grid_name <;> rfl, rfl, rfl, fun ha => by simp [ha], fun ha => ⟨[sn, se], ⟨w, e, s, n⟩, by simp [ha], rfl, by rw [hreg]; exact hlines⟩⟩
+      | some sp =>
+        simp only [Option.getD_some]
+        cases hlines : gridLines reg ⟨none, some sp, .spacing, false⟩ with
+        | error er => exact ⟨rfl, fun plan h => by cases h⟩
+        | ok lines =>
+          refine ⟨rfl, fun plan h => ?_⟩
+          cases h
+          exact ⟨by cases grid_name <;> rfl, rfl, rfl, fun ha => by simp [ha], fun ha => ⟨sp, ⟨w, e, s, n⟩, by simp [ha], rfl, by rw [hreg]; exact hlines⟩⟩
 
 end Verde.C16
